@@ -2,10 +2,12 @@ package hx
 
 import (
 	"fmt"
-	"os"
 	"math/rand"
+	"os"
+	"path/filepath"
 	"strconv"
 	"strings"
+	"time"
 
 	"evylang.dev/evy/pkg/evaluator"
 )
@@ -398,6 +400,42 @@ func RunC02(d *Driver) *Report {
 	}
 	for _, src := range c02Fixed() {
 		evalStream(r, d, "fixed", src, RunOpts{}, parts, true, oracle)
+	}
+	// resource limits of the host: run through the rebuilt binary in its own process (a Go stack overflow or
+	// an allocation failure kills the process and cannot be recovered in-process)
+	if bin, err := BuildEvy(); err == nil {
+		known := KnownIDs()
+		dir, _ := os.MkdirTemp("", "verif-c02-")
+		progs := []CorpusItem{
+			{"huge-repetition", "print (len [0]*1000000000000000)\n"},
+			{"empty-repetition", "x := [] * 1000000000000000000\nprint x\n"},
+			{"huge-nested-repetition", "a := [[1 2]] * 3\nprint (len a*100000000000)\n"},
+			{"deep-but-finite-recursion", "func f:num n:num\n    if n == 0\n        return 0\n    end\n    return 1 + (f n-1)\nend\nprint (f 5000)\n"},
+		}
+		progs = append(progs, Corpus("C02")...)
+		for _, w := range progs {
+			path := filepath.Join(dir, "p.evy")
+			os.WriteFile(path, []byte(w.Src), 0o644) //nolint
+			pr := runProc(60*time.Second, "", "sh", "-c", `ulimit -v 6000000; exec "$0" "$@"`, bin, "run", path)
+			r.Count("process:"+w.Name, true)
+			crashed := pr.Exit == -2 || pr.Killed || strings.Contains(pr.Stderr, "goroutine ") || strings.Contains(pr.Stderr, "fatal error")
+			if !crashed {
+				continue
+			}
+			kid := ""
+			if strings.HasPrefix(w.Src, "// known: ") {
+				kid = strings.TrimSpace(strings.SplitN(strings.TrimPrefix(w.Src, "// known: "), "\n", 2)[0])
+			}
+			first, _, _ := strings.Cut(strings.TrimSpace(pr.Stderr), "\n")
+			if kid != "" {
+				r.KnownSeen[kid]++
+				if known[kid] {
+					continue
+				}
+			}
+			r.Violation(Case{Stream: "host-process", Input: w.Src, Real: fmt.Sprintf("evy run: exit=%d killed=%v: %s", pr.Exit, pr.Killed, trunc(first, 300)), Spec: "execution ends by completion, an evy panic, exit, a failed test or a stop — never with a crash of the host", Known: kid})
+		}
+		os.RemoveAll(dir)
 	}
 	for _, src := range TypeMatrixPrograms() {
 		evalStream(r, d, "typematrix", src, RunOpts{}, parts, true, oracle)
